@@ -1,6 +1,7 @@
 package harness
 
 import (
+	"fmt"
 	"sort"
 	"strings"
 
@@ -38,9 +39,14 @@ func init() {
 	Register(&Check{ID: "C12", Level: "exploration",
 		Rule: "one case = one generated workflow (emphasis on fan-out of one out-port to several consumers incl. tagging components, fan-in with concurrent port closing, multi-core tasks, parameter feeders, RunTo) run under one tape-chosen schedule on the race-instrumented build; the in-simulator happens-before checker (vector clocks, edges only from go / channel send-receive / close / mutex / WaitGroup as in the Go memory model) reports every pair of conflicting accesses to a tracked location (maps, struct fields reached through pointers, object graphs handed to encoding/json) that is unordered in that execution. distinct = event-log hash; non-trivial = >=2 tasks and >=1 non-default choice",
 		Run: func(c *Case) Verdict {
-			w := Generate(c.Tape, tierProfile(profC12, c.Tier))
-			if c.Tape.Choose(simrt.StGen, 5, 0) == 1 {
-				pickRunTo(c.Tape, w)
+			var w *WF
+			if c.Tape.Choose(simrt.StGen, 4, 0) == 1 {
+				w = lazyIPFanoutWF(c)
+			} else {
+				w = Generate(c.Tape, tierProfile(profC12, c.Tier))
+				if c.Tape.Choose(simrt.StGen, 5, 0) == 1 {
+					pickRunTo(c.Tape, w)
+				}
 			}
 			c.Sample = sample(w)
 			inc := RunInc(w, c.Tape, nil, 0, IncOpts{KillAt: -1, Strategy: strategyOf(c.Tape), Trace: c.Trace, Race: true})
@@ -53,9 +59,20 @@ func init() {
 				return OK()
 			}
 			sort.Slice(reps, func(i, j int) bool { return raceSig(reps[i]) < raceSig(reps[j]) })
+			topo := "|tagger-input-exclusive"
+			if taggerSharesRecord(w) {
+				topo = "|tagger-input-shared"
+			}
+			sigOf := func(r simrt.RaceReport) string {
+				s := raceSig(r)
+				if strings.Contains(s, "ip.go:map(ai.Tags)") {
+					s += topo
+				}
+				return s
+			}
 			var first *simrt.RaceReport
 			for i := range reps {
-				v := Viol("data-race", raceSig(reps[i]), "%s", reps[i].String())
+				v := Viol("data-race", sigOf(reps[i]), "%s", reps[i].String())
 				if c.Known(v) {
 					continue
 				}
@@ -66,6 +83,77 @@ func init() {
 			if first == nil {
 				return OK()
 			}
-			return Viol("data-race", raceSig(*first), "%s", first.String())
+			return Viol("data-race", sigOf(*first), "%s", first.String())
 		}})
+}
+
+// taggerSharesRecord: does some tagging component receive items whose audit
+// record is shared with another consumer - the out-port it reads from has a
+// second consumer, or the producing process has several out-ports (all
+// outputs of a task carry one record)? Only then is the unsynchronised Tags
+// map of F-C12-1 reachable from two goroutines on the unchanged tree.
+func taggerSharesRecord(w *WF) bool {
+	consumers := map[Edge]int{}
+	for _, n := range w.Nodes {
+		for _, in := range n.Ins {
+			for _, e := range in.From {
+				consumers[e]++
+			}
+		}
+	}
+	for _, n := range w.Nodes {
+		if n.Kind != KMapToTags {
+			continue
+		}
+		for _, e := range n.Ins[0].From {
+			if consumers[e] >= 2 || len(w.Nodes[e.Node].Outs) >= 2 {
+				return true
+			}
+		}
+	}
+	return false
+}
+
+// lazyIPFanoutWF: a component that sends IPs whose audit record has not been
+// loaded yet (FileSplitter parts, Concatenator output), fanned out to several
+// consumers, one of them possibly a tagger: the lazy load itself must be
+// synchronised.
+func lazyIPFanoutWF(c *Case) *WF {
+	t := c.Tape
+	w := &WF{Name: "wf", Sources: map[string]string{}}
+	src := Node{Name: "src0", Kind: KFileSrc}
+	nf := 1 + t.Choose(simrt.StGen, 2, 0)
+	for i := 0; i < nf; i++ {
+		p := fmt.Sprintf("lines%d.txt", i)
+		var b strings.Builder
+		for l := 0; l < 2+t.Choose(simrt.StGen, 5, 0); l++ {
+			fmt.Fprintf(&b, "file %d line %d\n", i, l)
+		}
+		src.Files = append(src.Files, p)
+		w.Sources[p] = b.String()
+	}
+	s := addNode(w, src)
+	var lazy Edge
+	if t.Choose(simrt.StGen, 3, 0) == 1 {
+		cc := addNode(w, Node{Name: "cat", Kind: KConcat, OutPath: "concat/all.txt",
+			Ins: []InSpec{{Name: "in", From: []Edge{{s, "out"}}}}, Outs: []OutSpec{{Name: "out"}}})
+		lazy = Edge{cc, "out"}
+	} else {
+		sp := addNode(w, Node{Name: "split", Kind: KSplitter, SplitLines: 1 + t.Choose(simrt.StGen, 2, 0),
+			Ins: []InSpec{{Name: "file", From: []Edge{{s, "out"}}}}, Outs: []OutSpec{{Name: "split_file"}}})
+		lazy = Edge{sp, "split_file"}
+	}
+	k := 2 + t.Choose(simrt.StGen, 2, 0)
+	for i := 0; i < k; i++ {
+		up := lazy
+		if i == 0 && t.Choose(simrt.StGen, 2, 0) == 1 {
+			tg := addNode(w, Node{Name: "tag", Kind: KMapToTags, TagKey: "kind",
+				Ins: []InSpec{{Name: "in", From: []Edge{lazy}}}, Outs: []OutSpec{{Name: "out"}}})
+			up = Edge{tg, "out"}
+		}
+		oneToOne(w, fmt.Sprintf("use%d", i), up)
+	}
+	w.MaxTasks = 1 + t.Choose(simrt.StGen, 4, 0)
+	w.Bufsize = bufsizeOf(t)
+	return w
 }
